@@ -80,6 +80,32 @@ def programs(tier):
                                     ("place", "e3", "small-lamp", I(14), I(20), None), ("prop", "e3", "enable", B(">", B("*", X, I(2)), I(7)))],
              {"e1": ("small-lamp", 10, 20, B(">", X, I(3))), "e2": ("inserter", 12, 20, B("<", X, I(0))),
               "e3": ("small-lamp", 14, 20, B(">", B("*", X, I(2)), I(7)))}, {}, {})
+    # a gated derived bundle consumed by an entity, with further consumers of the source / the derived bundle
+    b2 = ("bundle", [V("x"), V("y")])
+    gpre = [("decl", "Bundle", "k", b2), ("decl", "Bundle", "p", B("*", V("k"), I(2))),
+            ("decl", "Bundle", "r", ("cond", B(">", ("sel", V("k"), "signal-X"), I(2)), V("p")))]
+    e_r = B(">", ("any", V("r")), I(7))
+    for tag, extra, ex in (("plain", [], None), ("+lamp-on-source", [("place", "e2", "small-lamp", I(3), I(0), None)], B(">", ("any", V("k")), I(4))),
+                           ("+lamp-on-derived", [("place", "e2", "small-lamp", I(3), I(0), None)], B(">", ("any", V("p")), I(7)))):
+        body = gpre + [("place", "e1", "small-lamp", I(0), I(0), None), ("prop", "e1", "enable", e_r)]
+        ents = {"e1": ("small-lamp", 0, 0, e_r)}
+        if ex is not None:
+            body += extra + [("prop", "e2", "enable", ex)]
+            ents["e2"] = ("small-lamp", 3, 0, ex)
+        yield mk(f"gated-derived-bundle/{tag}", body, ents, {}, {})
+    # the same with a CONSTANT bundle literal (one combinator carrying both members), one case per value pair
+    for av, bv in ((1, 7), (3, 7), (5, 2), (9, -4), (0, 0), (4, 4)):
+        kb = ("bundle", [("lit", "signal-A", I(av)), ("lit", "signal-B", I(bv))])
+        cpre = [("decl", "Bundle", "k", kb), ("decl", "Bundle", "p", B("*", V("k"), I(2))),
+                ("decl", "Bundle", "r", ("cond", B(">", ("sel", V("k"), "signal-A"), I(2)), V("p")))]
+        e_r2 = B(">", ("any", V("r")), I(10))
+        for tag, ex in (("plain", None), ("+lamp-on-source", B(">", ("any", V("k")), I(10))), ("+lamp-on-derived", B(">", ("any", V("p")), I(10)))):
+            body = cpre + [("place", "e1", "small-lamp", I(0), I(0), None), ("prop", "e1", "enable", e_r2)]
+            ents = {"e1": ("small-lamp", 0, 0, e_r2)}
+            if ex is not None:
+                body += [("place", "e2", "small-lamp", I(3), I(0), None), ("prop", "e2", "enable", ex)]
+                ents["e2"] = ("small-lamp", 3, 0, ex)
+            yield mk(f"gated-const-bundle/{tag}/{av},{bv}", body, ents, {}, {})
     # one entity output used in two merges (balanced-loader pattern from the spec)
     c1, c2 = ("output", "c1"), ("output", "c2")
     pre = [("place", "c1", "steel-chest", I(30), I(20), None), ("place", "c2", "steel-chest", I(31), I(20), None),
